@@ -361,6 +361,7 @@ CONFIG = {
         "calculateDigestFromResponse (manifest GET without Docker-Content-Digest) is modelled (digest_probe, C15_digest_probe: Content-Length over the limit refused before reading, else limitReader; the theorem assumes Content-Length = body length, which the transport guarantees); its first version (limit+1 reader) is kept as digest_probe_v1 with a refuted witness, fixed finding over-read-digest-probe; content/oci: a reference in digest form can only be the content's own digest (C08 fix 2b70301), the generator checks that the digest of other content is refused and that Tags() skips digest entries",
         "the known finding link-rel-ignored is matched by mechanism: only exactly-once / next-request / spurious-error failures of a run in which some request IS the target of the rel=first link-value; every other signature in such a run is reported as itself",
         "47 syntactic facts about the mirrored Go functions (translator kind c15_srcfact: where `last` is cleared, how parseLink reads and resolves the header, setQueryParams' split/cut/unescape/escape, the error texts the harness classifies by, limitReader, the Referrers fallback condition, listTags' comparisons) are regenerated on every run and proved by reflexivity (Proofs/PagingFacts.v): an edit there breaks layer P; 27 functions are anchored",
+        "registry.Tags / registry.Repositories / registry.Referrers / Repository.Predecessors (collect a whole listing) are modelled (collect_all, C15_collect_all, C15_collect_all_referrers) and run on a quarter of the scenarios (CA lines + oracle)",
         "every call into the implementation runs under a 20 s watchdog: a wedge is the oracle failure `hang` with the scenario as replay",
         "every input stream has a coverage floor (harness exits non-zero = broken layer R when a stream is nearly empty)",
         "content/oci listTags is modelled on the resolver map as a list of (reference, digest of its descriptor) in any order; Go string order = byte-wise lexicographic order",
